@@ -3,7 +3,7 @@ import itertools
 import json
 
 from .. import tdgen
-from ..gen import both, lib_case
+from ..gen import both, lib_case, VOCAB_FIELD_NAMES
 from ..ref import eip712, td
 from ..run.core import V
 
@@ -23,6 +23,7 @@ FOREIGN = [("description", "string"), ("Name", "string"), ("NAME", "string"), ("
            ("chainID", "uint256"), ("ChainId", "uint256"), ("chain_id", "uint256"), ("", "string"), ("verifyingcontract", "address"),
            ("VerifyingContract", "address"), ("verifying_contract", "address"), ("salt2", "bytes32"), ("Salt", "bytes32"), ("SALT", "bytes32"),
            ("names", "string"), ("Version", "string"), ("VERSION", "string"), ("version\u200b", "string"), ("x", "uint8"), ("n\u0430me", "string")]
+FOREIGN = FOREIGN + [(w, t) for w in VOCAB_FIELD_NAMES if w not in dict(F) for t in ("string", "bytes32")][::2]
 SUBST = ["bytes", "bytes31", "bytes32", "uint", "uint255", "uint256", "uint8", "int256", "string", "string[]", "address", "address[1]", "bool",
          "Foo", "bytes32[]", "uint256[]", "String", "bytes1"]
 
